@@ -581,6 +581,15 @@ fn write_datum(resp: &mut ResponseUnit, d: &Datum) {
         Datum::Bin(v) => {
             resp.data(Binary(*v));
         }
+        Datum::BinI8(v) => {
+            resp.data(Binary(*v));
+        }
+        Datum::HexI16(v) => {
+            resp.data(Hex(*v));
+        }
+        Datum::OctI64(v) => {
+            resp.data(Octal(*v));
+        }
         Datum::Utf8(s) => {
             resp.data(s.as_str());
         }
@@ -637,6 +646,9 @@ fn datum_text_inner(d: &Datum) -> core::result::Result<Vec<u8>, ErrObs> {
         Datum::Hex(x) => Hex(*x).format_response_data(&mut v),
         Datum::Oct(x) => Octal(*x).format_response_data(&mut v),
         Datum::Bin(x) => Binary(*x).format_response_data(&mut v),
+        Datum::BinI8(x) => Binary(*x).format_response_data(&mut v),
+        Datum::HexI16(x) => Hex(*x).format_response_data(&mut v),
+        Datum::OctI64(x) => Octal(*x).format_response_data(&mut v),
         Datum::Utf8(s) => s.as_str().format_response_data(&mut v),
         Datum::Err(spec) => build_err(spec).format_response_data(&mut v),
         Datum::ArrList(l) => {
